@@ -1058,3 +1058,100 @@ Theorem set_format_early_free_refuted :
   set_format_cfg (single_fault 10) ex_cfg 1 (Some [37; 46; 50; 102]) 7 (mkast 10 [5%nat])
     = Ok (ex_cfg, -1) (mkast 10 [5%nat]).
 Proof. vm_compute. repeat split. Qed.
+
+(* ------------------------------------------------------------------ operations that need no memory, and shrinking *)
+Lemma skipn_add {A} : forall (m n : nat) (l : list A), skipn n (skipn m l) = skipn (m + n) l.
+Proof.
+  induction m as [|m IH]; intros n l; [reflexivity|].
+  destruct l as [|x l]; cbn [skipn plus]; [destruct n; reflexivity|apply IH].
+Qed.
+
+Lemma zsplit3 {A} (l : list A) idx count : 0 <= idx -> 0 <= count ->
+  l = zfirstn idx l ++ zfirstn count (zskipn idx l) ++ zskipn (idx + count) l.
+Proof.
+  intros Hi Hc. rewrite <- (zfirstn_zskipn idx l) at 1. f_equal.
+  rewrite <- (zfirstn_zskipn count (zskipn idx l)) at 1. f_equal.
+  unfold zskipn. rewrite skipn_add, Z2Nat.inj_add by lia. reflexivity.
+Qed.
+
+Lemma cnt_concat_app y (a b : list (list nat)) :
+  cnt y (concat (a ++ b)) = (cnt y (concat a) + cnt y (concat b))%nat.
+Proof. rewrite concat_app, cnt_app. reflexivity. Qed.
+
+(* json_object_array_del_idx: no allocator in sight, so the statement holds under every
+   allocator behaviour by construction.  Done: the elements of the range were released, each
+   once, the others kept in order, the capacity and the slot array kept, NO request made.
+   Refused (range outside the array): nothing changed at all. *)
+Theorem arr_del_clean a idx count s rest :
+  Permutation (live s) (arr_blocks a ++ rest) ->
+  op_fault_clean eq s
+    (fun s' a' => Permutation (live s') (arr_blocks a' ++ rest) /\ nreq s' = nreq s /\
+                  ar_elems a' = zfirstn idx (ar_elems a) ++ zskipn (idx + count) (ar_elems a) /\
+                  ar_len a' = ar_len a - count /\ ar_size a' = ar_size a /\ ar_store a' = ar_store a)
+    (res_out (arr_del a idx count s)).
+Proof.
+  intros HP. rewrite perm_cnt in HP. unfold arr_del.
+  destruct ((idx <? 0) || (count <? 0) || (idx >=? ar_len a) || (idx + count >? ar_len a)) eqn:G;
+    [reflexivity|].
+  assert (Hi : 0 <= idx) by lia. assert (Hc : 0 <= count) by lia.
+  pose proof (zsplit3 (ar_elems a) idx count Hi Hc) as Sp.
+  destruct (free_list_ok (concat (zfirstn count (zskipn idx (ar_elems a)))) s
+              (ar_node a :: ar_struct a :: ar_store a ::
+               concat (zfirstn idx (ar_elems a) ++ zskipn (idx + count) (ar_elems a)) ++ rest))
+    as (s' & -> & Hcn & Hn).
+  { intros y. rewrite HP. unfold arr_blocks. rewrite Sp at 1. cbn [app cnt].
+    rewrite !cnt_app, !cnt_concat_app. cbn [cnt]. lia. }
+  cbn [res_out op_fault_clean ar_elems ar_len ar_size ar_store]. repeat split; auto.
+  rewrite perm_cnt. intros y. rewrite Hcn. unfold arr_blocks. cbn [app cnt ar_node ar_struct ar_store ar_elems].
+  rewrite !cnt_app. reflexivity.
+Qed.
+
+(* json_object_array_shrink, every allocator behaviour: Done — same elements, same length, the
+   slot array possibly replaced by one new block; Refused (-1) — the same blocks are live and
+   the array (the model's Fail carries no new array) is the caller's unchanged one *)
+Theorem arr_shrink_clean o a n s rest :
+  Permutation (live s) (arr_blocks a ++ rest) ->
+  op_fault_clean same_live s
+    (fun s' a' => Permutation (live s') (arr_blocks a' ++ rest) /\ ar_elems a' = ar_elems a /\ ar_len a' = ar_len a)
+    (res_out (arr_shrink o a n s)).
+Proof.
+  intros HP. rewrite perm_cnt in HP.
+  assert (H : forall y, cnt y (live s) = (cnt y (arr_blocks a) + cnt y rest)%nat)
+    by (intros y; rewrite HP, cnt_app; reflexivity).
+  unfold arr_shrink. destruct (n >=? SIZE_MAX / 8 - ar_len a); [reflexivity|].
+  destruct (ar_len a + n =? ar_size a).
+  { cbn [res_out op_fault_clean]. split; [|auto]. rewrite perm_cnt. intros y. rewrite H, cnt_app. reflexivity. }
+  destruct (ar_len a + n >? ar_size a).
+  - pose proof (arr_expand_spec o a (ar_len a + n) s rest H) as E.
+    destruct (arr_expand o a (ar_len a + n) s) as [a' s'|s'|]; cbn [res_out op_fault_clean]; [|exact E|exact E].
+    destruct E as (Hc & He & Hl). split; [|auto]. rewrite perm_cnt. intros y. rewrite Hc, cnt_app. reflexivity.
+  - unfold realloc. destruct (o (nreq s)); [|reflexivity].
+    destruct (remove1_ok (ar_store a) (live s)) as (l & R).
+    { rewrite H. unfold arr_blocks. cbn [cnt]. rewrite Nat.eqb_refl. lia. }
+    rewrite R. cbn [res_out op_fault_clean ar_elems ar_len]. split; [|auto].
+    rewrite perm_cnt. intros y. pose proof (remove1_cnt _ _ _ R y) as C. specialize (H y).
+    unfold arr_blocks in *. cbn [app cnt live ar_node ar_struct ar_store ar_elems] in *. rewrite cnt_app in *.
+    destruct (Nat.eqb y (ar_store a)); lia.
+Qed.
+
+(* negative control: a delete that ends in "return array_list_shrink(...)".  40 elements
+   (blocks 10..49) in 64 slots; deleting 35 of them leaves 5 < 64/4: the shrinking realloc
+   (request 100) is refused and the call reports failure — but the array has 5 elements now
+   and the 35 blocks are gone: a failure report for a call that did change the array. *)
+Definition ex_arr40 : arr := mkarr 0 1 2 40 64 (map (fun i => [i]) (seq 10 40)).
+Definition ex_s40 : ast := mkast 100 (arr_blocks ex_arr40).
+
+Theorem del_reports_failure_after_change_refuted :
+  (let '(r, now) := arr_del_shrinking (single_fault 100) ex_arr40 0 35 ex_s40 in
+   r = Fail (mkast 101 [0; 1; 2; 45; 46; 47; 48; 49]%nat) /\
+   match now with Some a1 => ar_len a1 = 5 | None => False end) /\
+  (* the code as written: same call, any allocator: success, 5 elements, 64 slots kept, no request *)
+  arr_del ex_arr40 0 35 ex_s40
+    = Ok (mkarr 0 1 2 5 64 (map (fun i => [i]) (seq 45 5))) (mkast 100 [0; 1; 2; 45; 46; 47; 48; 49]%nat) /\
+  arr_del ex_arr40 38 3 ex_s40 = Fail ex_s40 /\
+  arr_shrink (single_fault 100) ex_arr40 0 ex_s40 = Fail (mkast 101 (live ex_s40)) /\
+  match arr_shrink no_fault ex_arr40 0 ex_s40 with
+  | Ok a' s' => ar_size a' = 40 /\ ar_store a' = 100%nat /\ ar_elems a' = ar_elems ex_arr40
+  | _ => False
+  end.
+Proof. vm_compute. repeat split. Qed.
